@@ -61,11 +61,11 @@ theorem history_accepted (E : Env) (hincr : Incr E.nx) (acts : List Act) :
 
 /-- The op-level model that the correspondence run compares with the real TreeScheduler (`step`: an op followed
 by the main loop running to quiescence) only takes action sequences, so everything above holds of it. -/
-theorem ops_are_action_sequences (E : Env) (ops : List Op) :
+theorem ops_are_action_sequences (E : Env) (ops : List (List Nat × Op)) :
     ∃ acts, runOps E {} ops = runActs E {} acts :=
   runOps_acts E ops {}
 
-theorem ops_history_accepted (E : Env) (hincr : Incr E.nx) (ops : List Op) :
+theorem ops_history_accepted (E : Env) (hincr : Incr E.nx) (ops : List (List Nat × Op)) :
     Accepts E.nx (runOps E {} ops).trace.reverse := by
   obtain ⟨acts, h⟩ := runOps_acts E ops {}
   rw [h]; exact history_accepted E hincr acts
@@ -126,8 +126,8 @@ theorem E10_incr : Incr E10.nx := by
 worker, a clock jump over several occurrences, a failing run, a Release while in flight — the history contains
 three executor entries (task 1 at 10 and 20, task 2 at 15), in that order. -/
 example :
-    (runActs E10 {} [.sched 1 0 3 0, .sched 2 1 0 5, .adv 40, .fire, .consume, .iter, .iter, .done 1 .ok true,
-        .iter, .rel 2, .done 2 .err false, .iter, .iter]).trace.reverse =
+    (runActs E10 {} [.sched 1 0 3 0, .sched 2 1 0 5, .adv 40, .fire, .consume, .iter [], .iter [], .done 1 .ok true,
+        .iter [], .rel 2, .done 2 .err false, .iter [], .iter []]).trace.reverse =
       [Ev.sched 1 0 3 0, Ev.sched 2 1 0 5, Ev.clock 40, Ev.start 1 10 13, Ev.finish 1 10, Ev.ckpt 1 10,
        Ev.start 2 15 15, Ev.rel 2, Ev.finish 2 15, Ev.onErr 2, Ev.ckpt 2 15, Ev.onErr 2, Ev.start 1 20 23] := by
   decide
